@@ -1,5 +1,7 @@
 import ProductMD.Proofs.C08Images
 import ProductMD.Proofs.C08CI
+import ProductMD.Proofs.C08Ini
+import ProductMD.Model.DiscInfo
 /-!
 # C08 - serialisation is canonical: the bytes written depend on the content only
 
@@ -241,5 +243,145 @@ theorem C08_perm_composeinfo_ok (x y : CI.ComposeInfo) (h : CI.Same x y) (hk : C
   cases hd : dumps x with
   | error e => rw [hd] at hx; cases hx
   | ok b => rw [C08_perm_composeinfo x y h hk b hd]; rfl
+
+/-! ## treeinfo: the INI layer and the comma lists -/
+
+/-- **the INI bytes are a function of the document modulo the order of sections and of the options inside a section**
+(`SortedConfigParser.write` iterates `SortedDict`s).  `IniEq`: the sections are a rearrangement of each other, each with
+rearranged options; names distinct as in any dict; no `[DEFAULT]` block (`add_section` refuses the name). -/
+theorem C08_ini_canonical (d d' : Ini) (h : IniText.IniEq d d') (hk : IniText.DistinctKeys d) (hd : Ini.NoDefault d) :
+    IniText.render d = IniText.render d' := IniText.render_eq h hk hd
+
+example : IniText.render [("b".toList, [("y".toList, "1".toList), ("x".toList, "2".toList)]), ("a".toList, [])]
+    = IniText.render [("a".toList, []), ("b".toList, [("x".toList, "2".toList), ("y".toList, "1".toList)])] := by decide
+
+/-- every place where the treeinfo writer turns a set / dict into a comma list goes through a sort, and the sorted list
+does not depend on the order of the container: `[tree] platforms` and `[general] platforms` (a set), -/
+theorem C08_treeinfo_platforms (t t' : TI.Tree) (ha : t.arch = t'.arch) (hp : ∀ x, x ∈ t.platforms ↔ x ∈ t'.platforms) :
+    TI.platformsStr t = TI.platformsStr t' := by
+  unfold TI.platformsStr
+  rw [ha, CI.sortDedup_congr (l₁ := t.platforms ++ [t'.arch]) (l₂ := t'.platforms ++ [t'.arch])]
+  intro x
+  simp only [List.mem_append, hp x]
+
+/-- … `[tree] variants` and `[general] variants` (values / keys of the top-level dict), -/
+theorem C08_treeinfo_variants_list (l l' : List Str) (h : l.Perm l') :
+    Str.joinWith ',' (Ini.sortS l) = Str.joinWith ',' (Ini.sortS l') := by rw [Ini.sortS_perm_eq h]
+
+/-- … and a variant's `addons` (a set of child UIDs). -/
+theorem C08_treeinfo_addons (kids kids' : List TI.Variant) (h : (kids.map TI.Variant.uid).Perm (kids'.map TI.Variant.uid)) :
+    Str.joinWith ',' (Str.sortDedup (kids.map TI.Variant.uid)) = Str.joinWith ',' (Str.sortDedup (kids'.map TI.Variant.uid)) := by
+  rw [CI.sortDedup_congr (fun x => h.mem_iff)]
+
+/-! ## layout -/
+
+mutual
+/-- keys in ascending order in every dict, at every level -/
+def KeysSorted : PyVal → Prop
+  | .list xs => KeysSortedL xs
+  | .dict kvs => kvs.Pairwise KLe ∧ KeysSortedD kvs
+  | _ => True
+def KeysSortedL : List PyVal → Prop
+  | [] => True
+  | x :: xs => KeysSorted x ∧ KeysSortedL xs
+def KeysSortedD : List (Str × PyVal) → Prop
+  | [] => True
+  | (_, v) :: rest => KeysSorted v ∧ KeysSortedD rest
+end
+
+theorem keysSortedD_iff : ∀ l : List (Str × PyVal), KeysSortedD l ↔ ∀ kv ∈ l, KeysSorted kv.2
+  | [] => by simp [KeysSortedD]
+  | (k, v) :: rest => by simp [KeysSortedD, keysSortedD_iff rest]
+
+mutual
+theorem canon_keysSorted : ∀ v : PyVal, KeysSorted (canon v)
+  | .list xs => by simp only [canon, KeysSorted]; exact canonList_keysSorted xs
+  | .dict kvs => by
+    simp only [canon, KeysSorted]
+    refine ⟨sortKvs_sorted _, (keysSortedD_iff _).mpr ?_⟩
+    intro kv hkv
+    exact (keysSortedD_iff _).mp (canonKvs_keysSorted kvs) kv ((sortKvs_perm _).mem_iff.mp hkv)
+  | .none | .bool _ | .int _ | .float _ | .str _ | .other _ => by simp [canon, KeysSorted]
+theorem canonList_keysSorted : ∀ l : List PyVal, KeysSortedL (canonList l)
+  | [] => trivial
+  | x :: xs => ⟨canon_keysSorted x, canonList_keysSorted xs⟩
+theorem canonKvs_keysSorted : ∀ l : List (Str × PyVal), KeysSortedD (canonKvs l)
+  | [] => trivial
+  | (_, v) :: rest => ⟨canon_keysSorted v, canonKvs_keysSorted rest⟩
+end
+
+/-- **C08 layout (JSON).**  What is written is the rendering of a value whose dict keys are in ascending order at every
+level; indentation is four blanks per nesting level; every further entry of a dict / list at level `n` starts on its own
+line after `4 * n` blanks, `key: value` with one blank.  (The opening line of a container is the first two equations of
+`JsonText.render`; see the example below for a complete text.) -/
+theorem C08_layout_json (v : PyVal) :
+    JsonText.dumps v = JsonText.render 0 (canon v) ∧ KeysSorted (canon v) ∧
+    (∀ n, JsonText.indentStr n = List.replicate (4 * n) ' ') ∧
+    (∀ n k x rest, JsonText.renderKvs n ((k, x) :: rest) =
+        ',' :: '\n' :: JsonText.indentStr n ++ JsonText.quote k ++ ':' :: ' ' :: JsonText.render n x ++ JsonText.renderKvs n rest) ∧
+    (∀ n x xs, JsonText.renderItems n (x :: xs) =
+        ',' :: '\n' :: JsonText.indentStr n ++ JsonText.render n x ++ JsonText.renderItems n xs) :=
+  ⟨rfl, canon_keysSorted v, fun _ => rfl, fun _ _ _ _ => by simp only [JsonText.renderKvs],
+   fun _ _ _ => by simp only [JsonText.renderItems]⟩
+
+example : JsonText.dumps (.dict [("b".toList, .list [.int 1, .dict [("z".toList, .none), ("y".toList, .bool true)]]), ("a".toList, .dict [])])
+    = "{\n    \"a\": {},\n    \"b\": [\n        1,\n        {\n            \"y\": true,\n            \"z\": null\n        }\n    ]\n}".toList := by
+  decide
+
+/-- **C08 layout (treeinfo).**  Sections in ascending order of their names, inside a section the options in ascending order
+of their names, one `key = value` line each, a blank line after every section. -/
+theorem C08_layout_ini (d : Ini) (hd : Ini.NoDefault d) :
+    IniText.render d = (Ini.sortKV (d.filter (·.1 != Ini.DEFAULT))).flatMap IniText.renderSec ∧
+    Ini.KSorted (·.1) (Ini.sortKV (d.filter (·.1 != Ini.DEFAULT))) ∧
+    (∀ s : Str × IniSec, IniText.renderSec s = '[' :: s.1 ++ ']' :: '\n' :: (Ini.sortKV s.2).flatMap IniText.renderOpt ++ ['\n'] ∧
+        Ini.KSorted (·.1) (Ini.sortKV s.2)) ∧
+    (∀ kv : Str × Str, IniText.renderOpt kv = kv.1 ++ ' ' :: '=' :: ' ' :: IniText.escNl kv.2 ++ ['\n']) := by
+  refine ⟨?_, Ini.sortBy_sorted _ _, fun s => ⟨rfl, Ini.sortBy_sorted _ _⟩, fun _ => rfl⟩
+  unfold IniText.render
+  unfold Ini.NoDefault at hd
+  rw [hd]
+  rfl
+
+/-! ## caller-ordered lists are content -/
+
+/-- **C08 order kept (JSON).**  A list is written element by element in the given order: canonicalisation maps over it
+without rearranging, and the rendering of a concatenation is the concatenation of the renderings. -/
+theorem C08_order_kept_json (xs ys : List PyVal) (n : Nat) :
+    canon (.list xs) = .list (xs.map canon) ∧
+    JsonText.renderItems n (xs ++ ys) = JsonText.renderItems n xs ++ JsonText.renderItems n ys := by
+  refine ⟨by simp [canon, canonList_eq_map], ?_⟩
+  induction xs with
+  | nil => rfl
+  | cons x xs ih => simp [JsonText.renderItems, ih]
+
+/-- … so two orders of the same elements are different bytes (witness) -/
+theorem C08_order_kept_json_witness :
+    JsonText.dumps (.list [.str "Client".toList, .str "Server".toList]) ≠ JsonText.dumps (.list [.str "Server".toList, .str "Client".toList]) := by
+  decide
+
+open Img in
+/-- **C08 order kept (images).**  `additional_variants` of a unified image is written verbatim (whatever list the caller
+gave, in the caller's order). -/
+theorem C08_order_kept_images (i : Img.Image) (h : i.unified.truthy = true) :
+    i.dict.get? (L "additional_variants") = some i.additional_variants := by
+  unfold Image.dict
+  rw [h]
+  rfl
+
+/-- **C08 order kept (discinfo).**  The disc numbers are written in the caller's order. -/
+theorem C08_order_kept_discinfo (x : DI.DiscInfo) (ns : List Int) (hx : x.discs = .nums ns) (lines : List Str)
+    (h : DI.serialize x = .ok lines) : lines[3]? = some (Str.joinWith ',' (ns.map Str.intStr)) := by
+  unfold DI.serialize at h
+  cases hv : validateClass "discinfo.DiscInfo" (DI.obj x) with
+  | error e => simp [hv, bind, Except.bind] at h
+  | ok u =>
+    simp only [hv, bind, Except.bind, pure, Except.pure, hx] at h
+    injection h with h
+    subst h
+    rfl
+
+theorem C08_order_kept_discinfo_witness :
+    DI.buildFile ["1.0".toList, "d".toList, "a".toList, Str.joinWith ',' ([1, 2].map Str.intStr)]
+      ≠ DI.buildFile ["1.0".toList, "d".toList, "a".toList, Str.joinWith ',' ([2, 1].map Str.intStr)] := by decide
 
 end PM
